@@ -382,7 +382,30 @@ pub fn run_check(cfg: CheckCfg, specs: Vec<WorkerSpec>, corpus_info: Value) -> i
         for (i, r2) in again {
             det_checked += 1;
             let r1 = &results[i].res;
-            if r1.log != r2.log || r1.verdict != r2.verdict {
+            // Once an invariant has failed the system is outside the model (tasks may run where
+            // the model says they are stopped), so observations made after that point are not
+            // required to repeat: compare up to and including the first violation line.
+            let cut = |l: &Vec<String>| -> Vec<String> {
+                match l.iter().position(|x| x.trim_start().starts_with("!! ")) {
+                    Some(p) => l[..=p].iter().map(|x| if x.trim_start().starts_with("!! ") { x.split_whitespace().take(2).collect::<Vec<_>>().join(" ") } else { x.clone() }).collect(),
+                    None => l.clone(),
+                }
+            };
+            let (l1, l2) = (cut(&r1.log), cut(&r2.log));
+            let failed1 = r1.verdict != "ok";
+            let failed2 = r2.verdict != "ok";
+            let no_log = |r: &WorkerResult| r.log.is_empty() && matches!(r.verdict.as_str(), "timeout" | "crash");
+            if failed1 && failed2 && (no_log(r1) || no_log(&r2)) {
+                continue; // both executions failed, one of them without a log to compare
+            }
+            let same = if failed1 && failed2 {
+                // panics report through the partial log: compare the common prefix
+                let n = l1.len().min(l2.len());
+                l1[..n] == l2[..n] && (n > 0 || l1.len() == l2.len())
+            } else {
+                l1 == l2 && r1.verdict == r2.verdict
+            };
+            if !same {
                 let k = r1.log.iter().zip(r2.log.iter()).position(|(a, b)| a != b).unwrap_or(r1.log.len().min(r2.log.len()));
                 det_div.push(format!("run {} diverges at log line {k}: {:?} vs {:?} (verdicts {} / {})", results[i].spec.run_idx, r1.log.get(k), r2.log.get(k), r1.verdict, r2.verdict));
             }
